@@ -37,7 +37,8 @@ Record module := mkMod {
 
 Inductive package :=
 | PkgMissing                       (* import_module(pkg) raises ImportError naming the package (or its top-level parent) *)
-| PkgInitFails                     (* import_module(pkg) raises anything else *)
+| PkgInitFails                     (* import_module(pkg) raises anything else: an ImportError naming
+                                      another module, or any Exception out of the package's own code *)
 | PkgPresent (mods : list module). (* glob order *)
 
 (* an instance of a mode class: where it came from *)
@@ -201,7 +202,9 @@ Definition finish_init (fms : bool) (st : scan) : outcome :=
 
 Definition discover (fms : bool) (p : package) : outcome :=
   match p with
-  | PkgInitFails => Raised ErrPackage []                     (* "raise" at selector.py:95, FMS or not *)
+  | PkgInitFails =>
+    if fms then finish_init fms (mkScan [] [])               (* warning only; modules = [] *)
+    else Raised ErrPackage []                                (* if not isFMSAttached(): raise *)
   | PkgMissing => finish_init fms (mkScan [] [])             (* warning only; modules = [] *)
   | PkgPresent ms =>
     match scan_modules fms ms (mkScan [] []) with
